@@ -249,7 +249,8 @@ retry_fetch_lv:
         // just hit start_key
         if (traverse_endpoint == scan_endpoint::INCLUSIVE) {
             // not visit the border, so not call cb
-            value* vp = lv_ptr->get_value();
+            bool lv_cleared{false};
+            value* vp = lv_ptr->get_value(lv_cleared);
             auto* v_body = value::get_body(vp);
             node_version64_body final_check = target_border->get_stable_version();
             if (final_check.get_vsplit() != v_at_fb.get_vsplit() ||
@@ -257,6 +258,11 @@ retry_fetch_lv:
                 goto retry_from_root; // NOLINT
             }
             if (final_check.get_vinsert_delete() != v_at_fetch_lv.get_vinsert_delete()) {
+                goto retry_fetch_lv; // NOLINT
+            }
+            if (lv_cleared) {
+                // the entry is being removed concurrently (remove is not tracked by version).
+                if (early_abort) { return status::WARN_CONCURRENT_OPERATIONS; }
                 goto retry_fetch_lv; // NOLINT
             }
             out = v_body;
@@ -416,7 +422,8 @@ retry_after_fb:
         auto kt = key_tuple(ks, kl);
 
         link_or_value* lv = bn->get_lv_at(index);
-        value* vp = lv->get_value();
+        bool lv_cleared{false};
+        value* vp = lv->get_value(lv_cleared);
         // base_node* next_layer = lv->get_next_layer();
 
         /*
@@ -500,6 +507,11 @@ retry_after_fb:
             goto next_layer; // NOLINT
         } else {
             // hit value
+            if (lv_cleared) {
+                // the entry is being removed concurrently (remove is not tracked by version).
+                if (early_abort) { return status::WARN_CONCURRENT_OPERATIONS; }
+                goto retry_after_fb; // NOLINT
+            }
             auto* v_body = value::get_body(vp);
 
             // final check for atomicity
